@@ -6,8 +6,11 @@
 //!       edge-set oracle for neighbors/degree run on the implementation's own outputs.
 //!  (ii) concurrent: 2..8 real threads under `nverif::sched::run_threads`; the yield trace of every
 //!       real operation must equal the model's atomic step list under the same schedule, results and
-//!       final image must equal the model's; the Lean witness schedules are replayed
-//!       deterministically; seeded random schedules with the WF monitor at quiescence.
+//!       final image must equal the model's; the Lean witness schedules of the two remaining races
+//!       are replayed deterministically, the schedules of the three races fixed by the list lock
+//!       (/repo 81b9c5b4) are followed as far as the lock allows (regression); seeded random
+//!       schedules with the WF monitor at quiescence.  The scheduler's `choose` mirrors the list
+//!       lock (`LockMirror`) so that it does not grant a thread that would run into a held stripe.
 use graph_engine::{Direction, GraphEngine, GraphError, PropertyValue};
 use nverif::sched::{run_threads, Step};
 use nverif::*;
@@ -402,24 +405,51 @@ impl Gen {
     }
 }
 
-/// classify a broken WF clause into "<site>/<kind>" from the image and the operations involved
-fn classify(kind: &str, detail: &str, ops: &[Op], im: &Image) -> String {
-    let edge_id: Option<u64> = detail.split_whitespace().skip_while(|w| *w != "edge").nth(1).and_then(|s| s.parse().ok());
+/// classify a broken WF clause into "<site>/<kind>" from the image, the operations involved and the
+/// endpoints of every edge that existed during the run.
+///
+/// A break that involves a node some thread deletes concurrently (the broken edge has it as an
+/// endpoint; the list with the dangling entry belongs to it, or the vanished edge had it as an
+/// endpoint) is the node-deletion race `create_edge/edge_to_deleted_node`: an operation that has
+/// passed its existence check (or has read the node's lists) keeps writing after `delete_node`
+/// removed the node, its lists and its edges.  Only breaks that involve NO concurrently deleted node
+/// are attributed to the adjacency-list read-modify-write (`lost_adjacency_entry`, `lost_removal`:
+/// fixed by the list lock, regression classes).
+fn classify(kind: &str, detail: &str, ops: &[Op], im: &Image, edges: &HashMap<u64, (u64, u64, bool)>) -> String {
+    let num_after = |word: &str| -> Option<u64> {
+        detail.split_whitespace().skip_while(|w| *w != word).nth(1).and_then(|s| s.trim_matches(|c: char| !c.is_ascii_digit()).parse().ok())
+    };
+    let edge_id = num_after("edge");
     let updated = |e: u64| ops.iter().any(|o| matches!(o, Op::UEdge { e: x, .. } if *x == e));
+    let node_deleted = |n: u64| ops.iter().any(|o| matches!(o, Op::DNode(x) if *x == n));
+    let endpoint_deleted = |e: u64| {
+        let ends = im.edges.get(&e).map(|r| (r.src, r.dst)).or_else(|| edges.get(&e).map(|(a, b, _)| (*a, *b)));
+        ends.map_or(false, |(a, b)| node_deleted(a) || node_deleted(b))
+    };
+    const NODE_RACE: &str = "graph_engine.create_edge/edge_to_deleted_node";
     match kind {
-        "edge_endpoint_missing" => "graph_engine.create_edge/edge_to_deleted_node".into(),
+        "edge_endpoint_missing" => NODE_RACE.into(),
         "edge_not_listed" => {
             if let Some(e) = edge_id {
-                let r = &im.edges[&e];
                 let nowhere = !im.outs.values().any(|l| l.contains(&e)) && !im.ins.values().any(|l| l.contains(&e));
-                let _ = r;
                 if updated(e) && nowhere {
                     return "graph_engine.update_edge/resurrects_deleted_edge".into();
+                }
+                if endpoint_deleted(e) {
+                    return NODE_RACE.into();
                 }
             }
             "graph_engine.add_edge_to_list/lost_adjacency_entry".into()
         }
-        "dangling_entry" => "graph_engine.remove_edge_from_list/lost_removal".into(),
+        "dangling_entry" => {
+            // detail: "node:N:dir lists missing edge E"
+            let owner: Option<u64> = detail.strip_prefix("node:").and_then(|r| r.split(':').next()).and_then(|n| n.parse().ok());
+            if owner.map_or(false, node_deleted) || edge_id.map_or(false, endpoint_deleted) {
+                return NODE_RACE.into();
+            }
+            "graph_engine.remove_edge_from_list/lost_removal".into()
+        }
+        "entry_wrong_node" => "graph_engine.add_edge_to_list/entry_wrong_node".into(),
         "duplicate_entry" => "graph_engine.add_edge_to_list/duplicate_entry".into(),
         other => format!("graph_engine.store_image/{other}"),
     }
@@ -540,9 +570,179 @@ fn site_name(s: &str) -> &str {
     }
 }
 
-/// Run `threads` on `g` under the deterministic scheduler; `script` = thread to grant at each step
-/// (None: seeded random choice).
-fn run_conc(g: Arc<GraphEngine>, threads: &[Vec<Op>], script: Option<&[usize]>, rng: &mut Rng) -> (ConcOutcome, bool) {
+/// How `choose` decides.
+#[derive(Clone, Copy)]
+enum Sched<'a> {
+    /// follow the witness schedule exactly (deviation = disagreement)
+    Exact(&'a [usize]),
+    /// follow the schedule while the wanted thread is parked (it may then wait for the list lock),
+    /// otherwise the first thread that can run
+    Prefer(&'a [usize]),
+    /// seeded random choice among the threads that would not run into a held list lock
+    Random,
+}
+
+fn is_list_key(k: &str) -> bool {
+    k.starts_with("node:") && (k.ends_with(":out") || k.ends_with(":in"))
+}
+
+/// `GraphEngine::edge_list_lock`: stripe of `index_locks` (64 by default) chosen by this hash
+fn stripe(key: &str) -> usize {
+    key.bytes().fold(0usize, |h, b| h.wrapping_mul(31).wrapping_add(usize::from(b))) % 64
+}
+
+/// The harness-side mirror of the adjacency-list lock.  A real thread takes `edge_list_lock(key)`
+/// right after the store call that precedes `add_edge_to_list` / `remove_edge_from_list` (no yield
+/// point in between) and keeps it while parked at the list `store.get` / `store.put`.  From the
+/// operation a thread is in, the store calls it has made in it and the call it is parked at, the
+/// mirror says which list lock the thread holds and which one it takes next; `choose` does not
+/// grant a thread whose next lock shares a stripe with a lock held by another parked thread
+/// (such a grant costs the scheduler its stall timeout at every step until the holder releases).
+/// A wrong guess only costs time or a schedule that was not tried, never a wrong verdict: the
+/// model replays the schedule that really happened.
+struct LockMirror {
+    ops: Vec<Vec<Op>>,
+    /// executed store calls per thread
+    hist: Vec<Vec<(String, String)>>,
+    op_no: Vec<usize>,
+    op_start: Vec<usize>,
+    /// edge id -> (from, to, directed), from the setup answers and the `put edge:E` steps
+    edges: HashMap<u64, (u64, u64, bool)>,
+}
+
+impl LockMirror {
+    fn new(ops: &[Vec<Op>], edges: HashMap<u64, (u64, u64, bool)>) -> Self {
+        LockMirror { ops: ops.to_vec(), hist: vec![Vec::new(); ops.len()], op_no: vec![0; ops.len()], op_start: vec![0; ops.len()], edges }
+    }
+    fn sync(&mut self, t: usize, done_ops: usize) {
+        if done_ops != self.op_no[t] {
+            self.op_no[t] = done_ops;
+            self.op_start[t] = self.hist[t].len();
+        }
+    }
+    fn granted(&mut self, t: usize, site: &str, key: &str) {
+        if site == "thread.start" {
+            return;
+        }
+        if site == "store.put" && key.starts_with("edge:") {
+            if let (Some(Op::CEdge { a, b, d, .. }), Ok(e)) = (self.ops[t].get(self.op_no[t]), key[5..].parse::<u64>()) {
+                self.edges.insert(e, (*a, *b, *d));
+            }
+        }
+        self.hist[t].push((site.to_string(), key.to_string()));
+    }
+    fn edge_seq(a: u64, b: u64, d: bool) -> Vec<String> {
+        let mut v = vec![format!("node:{a}:out"), format!("node:{b}:in")];
+        if !d {
+            v.push(format!("node:{b}:out"));
+            v.push(format!("node:{a}:in"));
+        }
+        v
+    }
+    /// lists `delete_node(n)` cleans for edge (a, b, d): only the other endpoint's
+    fn dnode_seq(n: u64, a: u64, b: u64, d: bool) -> Vec<String> {
+        let other = if a == n { b } else { a };
+        let mut v = Vec::new();
+        if a == n {
+            v.push(format!("node:{other}:in"));
+        }
+        if b == n {
+            v.push(format!("node:{other}:out"));
+        }
+        if !d && other != n {
+            v.push(format!("node:{other}:out"));
+            v.push(format!("node:{other}:in"));
+        }
+        v
+    }
+    /// (list lock held while parked at `(site, key)`, stripes taken right after that call: the next
+    /// list lock and the id stripes of the in-memory index maintenance, which shares `index_locks`)
+    fn locks(&self, t: usize, site: &str, key: &str) -> (Option<String>, Vec<usize>) {
+        let Some(op) = self.ops[t].get(self.op_no[t]) else { return (None, Vec::new()) };
+        let steps = &self.hist[t][self.op_start[t]..];
+        let list_gets = |from: usize| steps[from..].iter().filter(|(s, k)| s == "store.get" && is_list_key(k)).count();
+        let at_list = is_list_key(key) && (site == "store.get" || site == "store.put");
+        let id_of = |k: &str, prefix: &str| k.strip_prefix(prefix).and_then(|x| x.parse::<u64>().ok());
+        let idx = |id: u64| (id % 64) as usize;
+        let rmw = |seq: &[String], from: usize| -> (Option<String>, Vec<usize>) {
+            if site == "store.get" {
+                (Some(key.to_string()), Vec::new())
+            } else {
+                (Some(key.to_string()), seq.get(list_gets(from)).map(|k| stripe(k)).into_iter().collect())
+            }
+        };
+        match op {
+            Op::CNode { .. } => {
+                // index_node_properties after the last put
+                let n = if site == "store.put" && key.ends_with(":in") { id_of(key.trim_end_matches(":in"), "node:") } else { None };
+                (None, n.map(idx).into_iter().collect())
+            }
+            Op::CEdge { a, b, d, .. } => {
+                let seq = Self::edge_seq(*a, *b, *d);
+                if site == "store.put" && key.starts_with("edge:") {
+                    (None, vec![stripe(&seq[0])])
+                } else if at_list {
+                    let (h, mut nx) = rmw(&seq, 0);
+                    if site == "store.put" && nx.is_empty() {
+                        // last list written: index_edge_properties(id)
+                        if let Some(e) = steps.iter().find(|(s, k)| s == "store.put" && k.starts_with("edge:")).and_then(|(_, k)| id_of(k, "edge:")) {
+                            nx.push(idx(e));
+                        }
+                    }
+                    (h, nx)
+                } else {
+                    (None, Vec::new())
+                }
+            }
+            Op::DEdge(e) => {
+                let seq = self.edges.get(e).map_or(Vec::new(), |(a, b, d)| Self::edge_seq(*a, *b, *d));
+                if site == "store.get" && key.starts_with("edge:") {
+                    // unindex_edge_properties, then the first list
+                    let mut nx = vec![idx(*e)];
+                    nx.extend(seq.first().map(|k| stripe(k)));
+                    (None, nx)
+                } else if at_list {
+                    rmw(&seq, 0)
+                } else {
+                    (None, Vec::new())
+                }
+            }
+            Op::DNode(n) => {
+                let last_edge = steps.iter().rposition(|(s, k)| s == "store.get" && k.starts_with("edge:"));
+                let seq_of = |k: &str| id_of(k, "edge:").and_then(|e| self.edges.get(&e)).map_or(Vec::new(), |(a, b, d)| Self::dnode_seq(*n, *a, *b, *d));
+                if site == "store.get" && key.starts_with("edge:") {
+                    let mut nx: Vec<usize> = id_of(key, "edge:").map(idx).into_iter().collect();
+                    nx.extend(seq_of(key).first().map(|k| stripe(k)));
+                    (None, nx)
+                } else if at_list && steps.len() < 3 {
+                    // get_edge_list of the node's own lists: no lock; unindex_node_properties may follow
+                    (None, vec![idx(*n)])
+                } else if at_list {
+                    match last_edge {
+                        Some(i) => rmw(&seq_of(&steps[i].1), i),
+                        None => (Some(key.to_string()), Vec::new()),
+                    }
+                } else if site == "store.delete" && key.starts_with("edge:") {
+                    (None, vec![idx(*n)])
+                } else {
+                    (None, Vec::new())
+                }
+            }
+            Op::UNode { n, .. } => (None, vec![idx(*n)]),
+            Op::UEdge { e, .. } => (None, vec![idx(*e)]),
+        }
+    }
+    /// for every parked thread: would a grant make it wait for a stripe held by another parked thread?
+    fn would_block(&self, parked: &nverif::sched::Parked) -> (Vec<bool>, Vec<Option<usize>>) {
+        let lk: Vec<(Option<String>, Vec<usize>)> = parked.iter().map(|(t, site, key)| self.locks(*t, site, key)).collect();
+        let held: Vec<Option<usize>> = lk.iter().map(|(h, _)| h.as_ref().map(|k| stripe(k))).collect();
+        let wb = (0..parked.len()).map(|i| lk[i].1.iter().any(|next| (0..parked.len()).any(|j| j != i && held[j] == Some(*next)))).collect();
+        (wb, held)
+    }
+}
+
+/// Run `threads` on `g` under the deterministic scheduler.
+fn run_conc(g: Arc<GraphEngine>, threads: &[Vec<Op>], sched: Sched, edges: HashMap<u64, (u64, u64, bool)>, rng: &mut Rng) -> (ConcOutcome, bool, u64, HashMap<u64, (u64, u64, bool)>) {
     let results: Arc<Mutex<Vec<Vec<String>>>> = Arc::new(Mutex::new(vec![Vec::new(); threads.len()]));
     let tasks: Vec<Box<dyn FnOnce() + Send>> = threads
         .iter()
@@ -560,21 +760,80 @@ fn run_conc(g: Arc<GraphEngine>, threads: &[Vec<Op>], script: Option<&[usize]>, 
         })
         .collect();
     let mut followed = true;
+    let mut avoided = 0u64;
     let mut local = rng.clone();
-    let trace = run_threads(tasks, |i, parked| match script {
-        Some(sc) => match sc.get(i).and_then(|want| parked.iter().position(|p| p.0 == *want)) {
-            Some(k) => k,
-            None => {
-                followed = false;
-                0
+    let mut mirror = LockMirror::new(threads, edges);
+    let res2 = results.clone();
+    let mut waiting: Vec<(usize, Vec<usize>)> = Vec::new();
+    let nthreads = threads.len();
+    let nops: Vec<usize> = threads.iter().map(|t| t.len()).collect();
+    let trace = run_threads(tasks, |i, parked| {
+        {
+            let r = res2.lock().unwrap();
+            for (t, _, _) in parked.iter() {
+                mirror.sync(*t, r[*t].len());
             }
-        },
-        None => local.below(parked.len() as u64) as usize,
+        }
+        let (wb, held) = mirror.would_block(parked);
+        let free: Vec<usize> = (0..parked.len()).filter(|k| !wb[*k]).collect();
+        // a thread is waiting on a real lock (it is neither parked nor finished): let the holders release
+        // first, every step taken while it waits costs the scheduler its stall timeout
+        let alive = {
+            let r = res2.lock().unwrap();
+            (0..nthreads).filter(|t| r[*t].len() < nops[*t]).count()
+        };
+        waiting.retain(|(t, _)| !parked.iter().any(|p| p.0 == *t));
+        let mut holders: Vec<usize> = (0..parked.len()).filter(|k| held[*k].map_or(false, |h| waiting.iter().any(|(_, w)| w.contains(&h)))).collect();
+        if holders.is_empty() {
+            holders = (0..parked.len()).filter(|k| held[*k].is_some()).collect();
+        }
+        let someone_waits = parked.len() < alive && !holders.is_empty();
+        let k = match sched {
+            Sched::Exact(sc) => match sc.get(i).and_then(|want| parked.iter().position(|p| p.0 == *want)) {
+                Some(k) => k,
+                None => {
+                    followed = false;
+                    0
+                }
+            },
+            Sched::Prefer(sc) => match sc.get(i).and_then(|want| parked.iter().position(|p| p.0 == *want)) {
+                Some(k) => k, // also when it will wait for the lock: the old witness schedules meet the real lock
+                _ => {
+                    followed = false;
+                    free.first().copied().unwrap_or(0)
+                }
+            },
+            Sched::Random => {
+                if free.len() < parked.len() && !free.is_empty() {
+                    avoided += 1;
+                }
+                if someone_waits {
+                    holders[local.below(holders.len() as u64) as usize]
+                } else if free.len() < parked.len() && local.chance(1, 32) {
+                    // now and then grant a thread that will wait: its store call then happens while the
+                    // lock it wants next is held, an interleaving the steering would never produce
+                    let w: Vec<usize> = (0..parked.len()).filter(|k| wb[*k]).collect();
+                    w[local.below(w.len() as u64) as usize]
+                } else if free.is_empty() {
+                    // every grant makes somebody wait (A holds x and wants y, B holds y and wants x):
+                    // take a holder, its release is what lets the others go on
+                    if holders.is_empty() { local.below(parked.len() as u64) as usize } else { holders[local.below(holders.len() as u64) as usize] }
+                } else {
+                    free[local.below(free.len() as u64) as usize]
+                }
+            }
+        };
+        let (t, site, key) = &parked[k];
+        if wb[k] {
+            waiting.push((*t, mirror.locks(*t, site, key).1));
+        }
+        mirror.granted(*t, site, key);
+        k
     });
     *rng = local;
     let results = results.lock().unwrap().clone();
     let image = image_of(&g);
-    (ConcOutcome { results, trace, image }, followed)
+    (ConcOutcome { results, trace, image }, followed, avoided, mirror.edges)
 }
 
 /// per-thread: edge orders of the delete_node operations, read off the real yield trace
@@ -665,7 +924,7 @@ fn conc_case(
     stream: &str,
     setup: &[Op],
     threads: &[Vec<Op>],
-    script: Option<&[usize]>,
+    sched: Sched,
     m: &mut Model,
     rep: &mut Report,
     rng: &mut Rng,
@@ -674,21 +933,40 @@ fn conc_case(
 ) -> Vec<String> {
     let g = Arc::new(new_engine());
     m.ask("reset");
+    let mut edges: HashMap<u64, (u64, u64, bool)> = HashMap::new();
     for op in setup {
         let a = exec(&g, op);
         let b = m.ask(&op.line());
         rep.compare(&format!("{stream}.setup"), || json!({"setup": ops_json(setup)}), &a, &b);
+        if let (Op::CEdge { a: from, b: to, d, .. }, Some(id)) = (op, a.strip_prefix("ok ").and_then(|x| x.parse::<u64>().ok())) {
+            edges.insert(id, (*from, *to, *d));
+        }
     }
-    let (oc, followed) = run_conc(g.clone(), threads, script, rng);
+    let (oc, followed, avoided, edges) = run_conc(g.clone(), threads, sched, edges, rng);
     let all_ops: Vec<Op> = threads.iter().flatten().cloned().collect();
-    if script.is_some() {
+    if let Sched::Exact(script) = sched {
         let actual: Vec<usize> = oc.trace.iter().map(|s| s.thread).collect();
-        let ok = followed && Some(&actual[..]) == script;
+        let ok = followed && actual[..] == *script;
         rep.compare(&format!("{stream}.schedule_followed"), || threads_json(setup, threads, &oc), if ok { "followed" } else { "deviated" }, "followed");
     }
-    if oc.trace.iter().any(|s| !s.blocked.is_empty()) {
-        rep.hit("conc.step_with_blocked_thread");
+    if let Sched::Prefer(_) = sched {
+        rep.hit(if followed { "regress.old_schedule_still_possible" } else { "regress.old_schedule_stopped_by_list_lock" });
     }
+    if std::env::var("NVERIF_DEBUG_BLOCK").is_ok() {
+        let mut was: Vec<usize> = Vec::new();
+        for (i, st) in oc.trace.iter().enumerate() {
+            for b in &st.blocked {
+                if !was.contains(b) {
+                    let last = oc.trace[..i].iter().rev().find(|x| x.thread == *b).map(|x| format!("{} {}", x.site, x.key)).unwrap_or_default();
+                    let next = oc.trace[i..].iter().find(|x| x.thread == *b).map(|x| format!("{} {}", x.site, x.key)).unwrap_or_default();
+                    eprintln!("BLOCK t{b} ops={:?} after [{last}] next [{next}] step {i}", threads[*b]);
+                }
+            }
+            was = st.blocked.clone();
+        }
+    }
+    rep.hit_n("conc.grants_steered_away_from_held_list_lock", avoided);
+    rep.hit_n("conc.steps_with_a_thread_blocked_on_a_real_lock", oc.trace.iter().filter(|s| !s.blocked.is_empty()).count() as u64);
     // ---- correspondence: yield trace == model step list, results, final image
     let line = model_run_line(threads, &oc);
     let ans = m.ask(&line);
@@ -721,7 +999,7 @@ fn conc_case(
     // ---- oracle: WF at quiescence
     let mut classes = Vec::new();
     for (kind, detail) in &breaks {
-        let c = classify(kind, detail, &all_ops, &oc.image);
+        let c = classify(kind, detail, &all_ops, &oc.image, &edges);
         if !classes.contains(&c) {
             classes.push(c.clone());
             let n = per_class.entry(c.clone()).or_insert(0);
@@ -917,26 +1195,18 @@ fn main() {
         }
     }
 
-    // ---------------- (ii-a) Lean witness schedules replayed on the real engine
+    // ---------------- (ii-a) Lean witness schedules replayed on the real engine (the two KNOWN races
+    //                  first, on every run), then the schedules of the three races fixed by the list lock
     let mut per_class: BTreeMap<String, u32> = BTreeMap::new();
     let mut wr = root.fork("witness");
     let n2 = vec![Op::CNode { l: 0, v: 0 }, Op::CNode { l: 0, v: 0 }];
     let e12 = Op::CEdge { a: 1, b: 2, d: true, ty: 0, v: 0 };
-    // Props.rmw_lost_update_witness
-    conc_case(
-        "witness.rmw_lost_update",
-        &n2,
-        &[vec![e12.clone()], vec![e12.clone()]],
-        Some(&[0, 1, 0, 1, 0, 1, 0, 1, 0, 1, 0, 1, 0, 0, 1, 1]),
-        &mut m, &mut rep, &mut wr, &mut per_class,
-        Some("graph_engine.add_edge_to_list/lost_adjacency_entry"),
-    );
     // Props.create_edge_delete_node_race_witness
     conc_case(
         "witness.create_edge_vs_delete_node",
         &n2,
         &[vec![e12.clone()], vec![Op::DNode(2)]],
-        Some(&[0, 0, 0, 1, 1, 1, 1, 1, 1, 1, 0, 0, 0, 0, 0]),
+        Sched::Exact(&[0, 0, 0, 1, 1, 1, 1, 1, 1, 1, 0, 0, 0, 0, 0]),
         &mut m, &mut rep, &mut wr, &mut per_class,
         Some("graph_engine.create_edge/edge_to_deleted_node"),
     );
@@ -946,27 +1216,38 @@ fn main() {
         "witness.update_edge_vs_delete_edge",
         &n2e,
         &[vec![Op::UEdge { e: 1, v: 9 }], vec![Op::DEdge(1)]],
-        Some(&[0, 0, 0, 1, 1, 1, 1, 1, 1, 1, 0]),
+        Sched::Exact(&[0, 0, 0, 1, 1, 1, 1, 1, 1, 1, 0]),
         &mut m, &mut rep, &mut wr, &mut per_class,
         Some("graph_engine.update_edge/resurrects_deleted_edge"),
     );
-    // Props.rmw_lost_removal_witness
+    // regression: Props.rmw_lost_update_witness / rmw_lost_removal_witness are schedules of the code
+    // BEFORE the list lock; the scheduler follows them as far as the lock allows. Any WF break here is
+    // a violation (the classes add_edge_to_list/lost_adjacency_entry, remove_edge_from_list/lost_removal
+    // are no longer known findings).
     let n2ee = vec![n2[0].clone(), n2[1].clone(), e12.clone(), e12.clone()];
-    conc_case(
-        "witness.rmw_lost_removal",
-        &n2ee,
-        &[vec![Op::DEdge(1)], vec![Op::DEdge(2)]],
-        Some(&[0, 1, 0, 1, 0, 1, 0, 1, 0, 0, 0, 1, 1, 1]),
-        &mut m, &mut rep, &mut wr, &mut per_class,
-        Some("graph_engine.remove_edge_from_list/lost_removal"),
-    );
+    let und = Op::CEdge { a: 1, b: 2, d: false, ty: 0, v: 0 };
+    let regress: Vec<(&str, &[Op], Vec<Vec<Op>>, Vec<usize>)> = vec![
+        ("regress.rmw_lost_update", &n2, vec![vec![e12.clone()], vec![e12.clone()]], vec![0, 1, 0, 1, 0, 1, 0, 1, 0, 1, 0, 1, 0, 0, 1, 1]),
+        ("regress.rmw_lost_removal", &n2ee, vec![vec![Op::DEdge(1)], vec![Op::DEdge(2)]], vec![0, 1, 0, 1, 0, 1, 0, 1, 0, 0, 0, 1, 1, 1]),
+        // the same with strict alternation, undirected edges (four lists each), three threads, and
+        // create against delete on one hub
+        ("regress.rmw_alternating", &n2, vec![vec![und.clone()], vec![und.clone()], vec![e12.clone()]], (0..60).map(|i| i % 3).collect()),
+        ("regress.rmw_create_vs_delete", &n2ee, vec![vec![e12.clone(), Op::DEdge(2)], vec![Op::DEdge(1), und.clone()]], (0..40).map(|i| i % 2).collect()),
+    ];
+    for (name, setup, threads, sc) in &regress {
+        let mut none = BTreeMap::new();
+        let classes = conc_case(name, setup, threads, Sched::Prefer(sc), &mut m, &mut rep, &mut wr, &mut none, None);
+        for c in classes {
+            rep.hit(&format!("regress.broken.{c}"));
+        }
+    }
 
     // ---------------- (ii-b) disjoint footprints: the regime of `quiescent_wf_partial`
     let mut r = root.fork("conc.disjoint");
     for _ in 0..150 * scale {
         let (setup, threads) = gen_disjoint(&mut r);
         let mut none = BTreeMap::new();
-        let classes = conc_case("conc.disjoint", &setup, &threads, None, &mut m, &mut rep, &mut r, &mut none, None);
+        let classes = conc_case("conc.disjoint", &setup, &threads, Sched::Random, &mut m, &mut rep, &mut r, &mut none, None);
         for c in classes {
             rep.violation("graph_engine.disjoint_footprints/breaks_wf", &format!("WF broken although the operations touch disjoint keys ({c})"), json!({"setup": ops_json(&setup)}));
         }
@@ -976,7 +1257,7 @@ fn main() {
     let mut r = root.fork("conc.random");
     for i in 0..600 * scale {
         let (setup, threads) = gen_conc(&mut r);
-        conc_case("conc.random", &setup, &threads, None, &mut m, &mut rep, &mut r, &mut per_class, None);
+        conc_case("conc.random", &setup, &threads, Sched::Random, &mut m, &mut rep, &mut r, &mut per_class, None);
         if i < 2 {
             rep.sample(json!({"stream": "conc.random", "setup": ops_json(&setup), "threads": threads.iter().map(|t| ops_json(t)).collect::<Vec<_>>()}));
         }
@@ -992,8 +1273,9 @@ fn main() {
     .iter()
     .map(|s| s.to_string())
     .collect();
-    rep.note("engine takes no lock around add_edge_to_list / remove_edge_from_list (index_locks guard only the in-memory property indexes; batch_unique_lock only with unique constraints): no lock steps in the model");
-    rep.note("delete_node's >=100-edge path runs on rayon pool threads that the deterministic scheduler does not control; it is exercised only by the sequential stream (real race, not schedule-controlled)");
+    rep.note("add_edge_to_list / remove_edge_from_list run under edge_list_lock(key) (a stripe of index_locks chosen by a hash of the list key, /repo 81b9c5b4); the model has one lock per list key (acquire / release are silent steps, a thread at the acquire of a held lock is not runnable); two keys sharing a stripe only remove interleavings. The lock is invisible in the yield traces: the correspondence is that every real schedule is accepted by the locked model (a grant to a non-runnable model thread would show as a trace disagreement)");
+    rep.note("the scheduler's choose mirrors the list lock (LockMirror) and does not grant a thread that would wait for a held stripe; steps where a thread nevertheless waited on a real lock (index stripes shared with list keys, wrong guesses) are counted in conc.steps_with_a_thread_blocked_on_a_real_lock");
+    rep.note("delete_node's >=100-edge path runs on rayon pool threads that the deterministic scheduler does not control; it is exercised only by the sequential stream (real concurrency, not schedule-controlled); since the list lock every such script must be well-formed (class graph_engine.delete_node/parallel_path_lost_removal is a regression oracle)");
     rep.note("not modelled: property/label index contents, constraints, batch operations, weak-memory effects inside one TensorStore call");
     rep.write(&args.out);
 }
